@@ -307,7 +307,8 @@ func runC18(h *Harness) {
 			}
 			return s, nil
 		}
-		for i := 0; i < nops && len(h.R.Violations) == 0; i++ {
+		isEmptyReported := false
+		for i := 0; i < nops && len(h.R.Violations) == softViolations; i++ {
 			if faulty && tp.Chance(1, 6) {
 				base := int(h.Disk.StOps())
 				k := 1 + tp.Int(4)
@@ -400,14 +401,19 @@ func runC18(h *Harness) {
 				opsLog = append(opsLog, fmt.Sprintf("replace(%d entries)", cnt))
 				e1 = ms.Update(m2)
 				e2 = ds.Update(d2)
+				if e1 == nil {
+					model = nm
+				}
 				if e1 != nil || e2 != nil {
 					if !faulty {
 						h.Violation("C18.op-error", "replace-failed", "Update failed: map %v disk %v", e1, e2)
 					}
 					uncertain = true
-					break
+					if e2 != nil {
+						// the disk store's handle is unusable after a failed swap; the comparison ends here
+						return
+					}
 				}
-				model = nm
 			case 6: // close + reopen (disk)
 				h.R.NonTrivial = true
 				opsLog = append(opsLog, "reopen")
@@ -422,7 +428,7 @@ func runC18(h *Harness) {
 				h.R.NonTrivial = true
 				opsLog = append(opsLog, "dirty-restart")
 				img := filepath.Join(n.WorkDir, fmt.Sprintf("img%d", i))
-				if err := CopyTree(filepath.Join(curBase, "store1"), filepath.Join(img, "store1")); err != nil {
+				if err := h.Disk.Snapshot(filepath.Join(curBase, "store1"), filepath.Join(img, "store1")); err != nil {
 					panic(err)
 				}
 				ds.Close()
@@ -443,11 +449,13 @@ func runC18(h *Harness) {
 				h.Violation("C18.map-vs-model", diffClass(d), "memory backend differs from the model after %v: %s", opsLog, d)
 			}
 			if !uncertain {
-				if d := diffObs(od, oo, false); d != "" {
+				if d := diffObs(od, oo, true); d != "" {
 					h.Violation("C18.disk-vs-model", diffClass(d), "disk backend differs from the model after %v: %s", opsLog, d)
 				}
-				if om.Empty != od.Empty {
-					h.Violation("C18.map-vs-disk", "isEmpty", "IsEmpty: memory %v, disk %v after %v", om.Empty, od.Empty, opsLog)
+				if om.Empty != od.Empty && !isEmptyReported {
+					// reported once per run; the comparison of everything else goes on (recordOnly does not end the sequence)
+					isEmptyReported = true
+					recordOnly(h, "C18.map-vs-disk", "isEmpty", fmt.Sprintf("IsEmpty: memory %v, disk %v after %v", om.Empty, od.Empty, opsLog))
 				}
 			} else {
 				// relaxed: after a failed operation the disk store may or may not hold its effect, but it must
@@ -468,6 +476,15 @@ func runC18(h *Harness) {
 }
 
 func tp0(size int) int { return size / 2 }
+
+// softViolations counts violations recorded with recordOnly: they are reported like any other but do
+// not end the run, so that exploration continues behind a finding that most runs reach.
+var softViolations int
+
+func recordOnly(h *Harness, oracle, sig, detail string) {
+	h.Violation(oracle, sig, "%s", detail)
+	softViolations++
+}
 
 // ------------------------------------------------------------------------------------------ C09
 
